@@ -838,6 +838,13 @@ static int32_t pstm_sqr_comba16(const pstm_int *A, pstm_int *B)
     COMBA_STORE2(b[31]);
     COMBA_FINI;
 
+    {
+        int32 ix;
+        for (ix = 32; ix < B->used; ix++)
+        {
+            B->dp[ix] = 0; /* clear digits of the previous value */
+        }
+    }
     B->used = 32;
     B->sign = PSTM_ZPOS;
     Memcpy(B->dp, b, 32 * sizeof(pstm_digit));
@@ -1186,6 +1193,13 @@ static int32_t pstm_sqr_comba32(const pstm_int *A, pstm_int *B)
     COMBA_STORE2(b[63]);
     COMBA_FINI;
 
+    {
+        int32 ix;
+        for (ix = 64; ix < B->used; ix++)
+        {
+            B->dp[ix] = 0; /* clear digits of the previous value */
+        }
+    }
     B->used = 64;
     B->sign = PSTM_ZPOS;
     Memcpy(B->dp, b, 64 * sizeof(pstm_digit));
